@@ -131,8 +131,9 @@ AllTrajectoriesAggregated ==
 RunsNeverExceed == Part = "R" => Len(runs) <= NTraj
 
 \* =========================================================================================== Part V
-AdmittedCanRun == Part = "V" => \A i \in 1..Len(Versions) : Versions[i].admitted => Versions[i].canrun
-SomeAdmitted == Part = "V" => \E i \in 1..Len(Versions) : Versions[i].admitted       \* non-vacuity
+\* (pc is mentioned so that TLC treats these as state predicates and reports them as invariant violations)
+AdmittedCanRun == (Part = "V" /\ pc = "versions") => \A i \in 1..Len(Versions) : Versions[i].admitted => Versions[i].canrun
+SomeAdmitted == (Part = "V" /\ pc = "versions") => \E i \in 1..Len(Versions) : Versions[i].admitted       \* non-vacuity
 
 \* =========================================================================================== spec
 NoR == trajs = <<>> /\ ti = 0 /\ ri = 0 /\ runs = <<>> /\ agg = [n |-> 0, meanTimesN |-> 0, counts |-> 0]
